@@ -261,6 +261,10 @@ def discriminating_path(
     if not graph.has_edge(a, c, graph.directed_edge_name):
         return found_discriminating_path, disc_path, explored_nodes
 
+    # u must be adjacent to c
+    if c not in graph.neighbors(u):
+        return found_discriminating_path, disc_path, explored_nodes
+
     # a and u must be connected by a bidirected edge, or with an edge towards a
     # for a to be a definite collider
     if not graph.has_edge(a, u, graph.bidirected_edge_name) and not graph.has_edge(
